@@ -209,5 +209,8 @@ Definition c12_check (c : c12case) : bool :=
   | CField pre post s w a tr o => obs_eqb (field_line (dec3 pre) (dec3 post) (dec3 s) w a tr) o
   | CWide pre post m a tw o => obs_eqb (wide_line (dec3 pre) (dec3 post) (dec3 m) a tw) o
   | CStyled pre post s w a tr spre spost o =>
+      (* the hypothesis of C12_styled_fits, evaluated on the observed style texts with the width
+         function the model uses for content: a style text that occupies a column is a mismatch *)
+      (cols (dec3 spre) =? 0) && (cols (dec3 spost) =? 0) &&
       obs_eqb (styled_field_line (dec3 pre) (dec3 post) (dec3 s) w a tr (Some (dec3 spre, dec3 spost))) o
   end.
